@@ -71,11 +71,12 @@ structure HPRow where
   dflt : PyVal
   deriving Repr, DecidableEq
 
+instance : Inhabited HPRow := ⟨{ owner := [], attr := [], name := [], reader := [], writer := [], dflt := .none }⟩
+
 def hpRows : List HPRow :=
-  Gen.rhProps.map fun (o, a, n, r, w, isInt, d) =>
+  Gen.rhProps.map fun (o, a, n, r, w, isInt, d, di) =>
     { owner := o.toList, attr := a.toList, name := n.toList, reader := r.toList, writer := w.toList,
-      dflt := if isInt then (match d.toInt? with | some i => PyVal.int i | Option.none => PyVal.other)
-              else PyVal.str d.toList }
+      dflt := if isInt then PyVal.int di else PyVal.str d.toList }
 
 inductive HOp
   | len                                   -- `len(h)`                 HeaderDict.__len__
